@@ -5,11 +5,14 @@ package ibb
 
 import (
 	"bytes"
+	"context"
 	"encoding/xml"
 	"fmt"
 	"testing"
+	"time"
 
 	"mellium.im/xmlstream"
+	"mellium.im/xmpp/jid"
 	"mellium.im/xmpp/stanza"
 )
 
@@ -59,4 +62,54 @@ func TestGvcAdapterIBBCorruptKeepsBuffer(t *testing.T) {
 		return
 	}
 	fmt.Printf("NOT-REPRODUCED ibb corrupt packet: seq=%d buffered=%d err=%v\n", c.seq, c.readBuf.Len(), err)
+}
+
+// An <open/> request while nobody is in Accept: the handler (serve loop) must
+// not wait for the application.
+func TestGvcAdapterIBBOpenWithoutAccept(t *testing.T) {
+	h := &Handler{streams: map[string]*Conn{}, l: map[string]*Listener{}}
+	h.l[""] = &Listener{h: h, c: make(chan *Conn)}
+	done := make(chan struct{})
+	go func() {
+		defer close(done)
+		defer func() { recover() }()
+		iq := openIQ{}
+		iq.Open.SID = "s1"
+		iq.Open.BlockSize = 4096
+		handleOpen(h, iq, &gvcEnc{})
+	}()
+	select {
+	case <-done:
+		fmt.Println("NOT-REPRODUCED ibb open: the handler returned without an Accept pending")
+	case <-time.After(2 * time.Second):
+		fmt.Println("REPRODUCED ibb: an <open/> request with a listener registered but no Accept call pending blocks the handler (and the serve loop) until the application accepts; a peer can stall the session with two opens")
+		t.Fail()
+	}
+}
+
+// An <open/> request matching an Expect call whose context has ended: the
+// stale entry is still in the table and the handler waits on it forever.
+func TestGvcAdapterIBBOpenAfterExpectCancelled(t *testing.T) {
+	h := &Handler{streams: map[string]*Conn{}, l: map[string]*Listener{}}
+	l := &Listener{h: h, c: make(chan *Conn, 1)}
+	h.l[""] = l
+	ctx, cancel := context.WithCancel(context.Background())
+	cancel()
+	l.Expect(ctx, jid.JID{}, "s1")
+	done := make(chan struct{})
+	go func() {
+		defer close(done)
+		defer func() { recover() }()
+		iq := openIQ{}
+		iq.Open.SID = "s1"
+		iq.Open.BlockSize = 4096
+		handleOpen(h, iq, &gvcEnc{})
+	}()
+	select {
+	case <-done:
+		fmt.Println("NOT-REPRODUCED ibb open after a cancelled Expect: the handler returned")
+	case <-time.After(2 * time.Second):
+		fmt.Println("REPRODUCED ibb: Expect left its entry behind when its context ended; a later matching <open/> blocks the handler (and the serve loop) forever")
+		t.Fail()
+	}
 }
